@@ -13,6 +13,12 @@ nodes per variable is identity in these variables (Descartes/Laguerre: T real-po
 zeros; for LJ and integer n this is the Laurent-polynomial argument of DESIGN.md).  The dependence on the exponents
 n and alpha themselves is NOT covered by any finite argument: bounded to the enumerated values.  If the walk fails
 the whole claim is the completed grid (stated in bounds/rule, never a violation).
+
+Strengthened slices (docs/STRENGTHEN_TASK.md; alphabets in mc/ref/c12x.py):
+  C12.types           all arguments as python int / np.int64 / np.int32 / np.float64 / np.float32 (integer division, integer powers, overflow)
+  C12.scale           r (alone or with epsilon, sigma, r_c) as numpy arrays of 1, 64, 65, 257 (thorough .. 4097) elements and 2-D
+  C12.edge            exponents at which inner powers become zero / negative: n in {-2..2}, alpha in {1, 1.25, 1.5, 2}
+  C12.sequence.mixed  call words ACROSS the three models (same r, epsilon, sigma, r_c, shift), fresh object per call and ONE shared object
 """
 import itertools
 import os
@@ -21,7 +27,7 @@ import numpy as np
 
 from mc import harness
 from mc.harness import Result, Sub
-from mc.ref import pairpot
+from mc.ref import c12x, pairpot
 
 ASSUMPTIONS = [
     "documented potentials (docs/hessian.md): LJ 4 eps[(sigma/r)^12-(sigma/r)^6]; IPL A eps (sigma/r)^n; Hertz "
@@ -34,6 +40,17 @@ ASSUMPTIONS = [
     "variable); the dependence on n / alpha is a bounded claim (enumerated values only)",
     "nodes are r = x*sigma, r_c = y*sigma rounded to double (perturbs the Cartesian grid by <= 1 ulp; tolerance 1e-9)",
     "float tolerance rtol 1e-9, atol 1e-11; s1rc must be exactly 0 when shift is False",
+    "C12.types: r, epsilon, sigma, r_c, n, A, alpha may all be python ints, np.int64 / np.int32, np.float64 (the type the Hessian code "
+    "passes for r) or np.float32 scalars (the docstrings say float); float32 arguments are only required to give float32 accuracy (1e-4 relative)",
+    "C12.scale: r given as a numpy array (1-D or 2-D; alone, or together with equally shaped epsilon / sigma / r_c arrays) is evaluated "
+    "elementwise by the unchanged tree; this undocumented vectorised use is exercised, but a TypeError / ValueError is NOT reported "
+    "(arrays are not promised) - only wrong values, wrong shapes or modified input arrays are",
+    "C12.edge: exponents at which a power inside the closed forms becomes zero or negative - n in {-2, -1, 0, 0.5, 1, 2} (s is still "
+    "A eps (sigma/r)^n) and alpha in {1, 1.25, 1.5, 2} on r < sigma strictly (alpha < 2: s'' diverges at r = sigma, excluded); "
+    "alpha = 1 only without shift: there the documented 's'(r_c) = 0' and the derivative of the documented s(r) (-eps/sigma) disagree, "
+    "the implementation follows the documentation - nothing is demanded",
+    "C12.sequence.mixed: the result of a call must not depend on earlier calls with another model / exponent / prefactor, neither "
+    "through process-wide state (fresh object per call) nor through state kept on one PairInteractions object (same-object mode)",
 ]
 
 RTOL, ATOL = 1e-9, 1e-11
@@ -90,7 +107,7 @@ def gen_model(model, via):
                 xs = list(a["xh"])
                 if float(al).is_integer():
                     # integer exponent: the documented s(r) is a polynomial in r, real on both sides of sigma
-                    xs = xs + a["xh_beyond"]
+                    xs = xs + [1.0] + a["xh_beyond"]  # r = sigma = r_c exactly is reachable (the Hessian's cutoff test is inclusive)
                 yield {"model": "hertz", "via": via, "sigma": sg, "eps": ep, "y": 1.0, "shift": sh, "alpha": al, "x": xs}
     return gen
 
@@ -174,7 +191,9 @@ def run(case):
             break
     R.elem = 3 * len(case["x"])
     R.outcome(rows)
-    R.nontrivial = len(rows) > 0 and all(abs(g[0]) > 0 and abs(g[2]) > 0 for g in rows) and (not sh or m == "hertz" or all(g[1] != 0 for g in rows))
+    # (the Hertz contact node r = sigma has s1 = 0 by construction: not part of the non-triviality rule)
+    core = [g for g, x in zip(rows, case["x"]) if not (m == "hertz" and x == 1.0)]
+    R.nontrivial = len(core) > 0 and all(abs(g[0]) > 0 and abs(g[2]) > 0 for g in core) and (not sh or m == "hertz" or all(g[1] != 0 for g in core))
     return R
 
 
@@ -275,6 +294,273 @@ def run_sequence(case):
     return R
 
 
+# ------------------------------------------------------------------------------------------ strengthened slices
+def _mk(form):
+    return {"pyint": int, "np.int64": np.int64, "np.int32": np.int32, "np.float64": np.float64, "np.float32": np.float32, "pyfloat": float}[form]
+
+
+def _invoke(model, via, r, eps, sigma, r_c, shift, n=None, A=None, alpha=None, obj=None, decoy=None):
+    """one library call with the arguments exactly as given (no conversion); decoy = values of the fields of the OTHER models"""
+    from PyMatterSim.static.hessians import InteractionParams, ModelName, PairInteractions
+
+    P = obj if obj is not None else PairInteractions(r, eps, sigma, r_c, shift)
+    if via == "caller":
+        kw = dict(decoy or DECOY)
+        if model == "lj":
+            ip = InteractionParams(ModelName.lennard_jones, **kw)
+        elif model == "ipl":
+            kw.update(ipl_n=n, ipl_A=A)
+            ip = InteractionParams(ModelName.inverse_power_law, **kw)
+        else:
+            kw.update(harmonic_hertz_alpha=alpha)
+            ip = InteractionParams(ModelName.harmonic_hertz, **kw)
+        return P.caller(ip)
+    if model == "lj":
+        return P.lennard_jones()
+    if model == "ipl":
+        return P.inverse_power_law(n, A)
+    return P.harmonic_hertz(alpha)
+
+
+def gen_types(tier, seed):
+    for m in pairpot.MODELS:
+        for form in c12x.NUM_FORMS:
+            for via in ("direct", "caller"):
+                for sh in (True, False):
+                    yield {"model": m, "form": form, "via": via, "shift": sh}
+
+
+def run_types(case):
+    R = Result()
+    m, form, via, sh = case["model"], case["form"], case["via"], case["shift"]
+    mk = _mk(form)
+    rt = 1e-4 if form == "np.float32" else RTOL
+    feat = {"model": m, "via": via, "shift": sh, "form": form, "clause": "types"}
+    rows = []
+    for r, s, c, e, ex in c12x.int_tuples(m):
+        kw = {k: mk(v) for k, v in ex.items()}
+        # the shift flag in the flavour of the form too: python bool / 0-1 integer / numpy bool
+        shf = {"pyint": int(sh), "np.int64": np.bool_(sh), "np.int32": np.int32(sh)}.get(form, sh)
+        got = _invoke(m, via, mk(r), mk(e), mk(s), mk(c), shf, **kw)
+        exp = pairpot.triple(m, float(r), float(e), float(s), float(c), sh, n=ex.get("n"), A=ex.get("A"), alpha=ex.get("alpha"))
+        if got is None or len(got) != 3 or any(np.ndim(v) != 0 for v in got):
+            R.fail(f"{m} with {form} arguments r={r}, eps={e}, sigma={s}, r_c={c}, {ex}: returned {got!r}", sig=dict(feat, clause="shape"))
+            break
+        g = [complex(v) for v in got]
+        if any(v.imag != 0 or not np.isfinite(v.real) for v in g):
+            R.fail(f"{m} with {form} arguments r={r}, eps={e}, sigma={s}, r_c={c}, {ex}: non-real / non-finite {got!r}", sig=dict(feat, clause="finite"), exp=exp)
+            break
+        g = [v.real for v in g]
+        rows.append(g)
+        bad = [k for k in range(3) if not (abs(g[k] - exp[k]) <= ATOL + rt * abs(exp[k])) or (k == 1 and not sh and g[k] != 0.0)]
+        if bad:
+            R.fail(f"{m} ({via}) with {form} arguments r={r}, eps={e}, sigma={s}, r_c={c}, shift={sh}, {ex}: returned {g}, derivatives of the documented "
+                   f"potential are {exp} (entries {bad} wrong)", sig=dict(feat, entry=["s1", "s1rc", "s2"][bad[0]]), exp=exp, obs=g)
+            break
+    R.elem = 3 * len(rows)
+    R.outcome(np.round(np.array(rows), 4) if form == "np.float32" else rows)
+    R.nontrivial = len(rows) > 0
+    return R
+
+
+def gen_scale(tier, seed):
+    q = tier == "quick"
+    a = alpha(tier)
+    for m in pairpot.MODELS:
+        extras = {"lj": [{}], "ipl": [{"n": 10, "A": 2.5}, {"n": 12.5, "A": 1.0}], "hertz": [{"alpha": 2.5}, {"alpha": 3}]}[m]
+        for ex in extras:
+            for shape in c12x.SHAPES_Q if q else c12x.SHAPES_T:
+                for arrays in ("r", "all"):
+                    for via in ("direct", "caller"):
+                        for sh in (True, False):
+                            yield {"model": m, "extra": ex, "shape": shape, "arrays": arrays, "via": via, "shift": sh}
+
+
+def run_scale(case):
+    R = Result()
+    m, ex, shape, via, sh = case["model"], case["extra"], tuple(case["shape"]), case["via"], case["shift"]
+    n = int(np.prod(shape))
+    if m == "hertz":
+        xs = c12x.x_pattern(n, 0.3, 1.5 if float(ex["alpha"]).is_integer() else 0.98)
+    else:
+        xs = c12x.x_pattern(n, 0.8, 2.5)
+    if case["arrays"] == "all":
+        sg = np.array([[0.7, 1.0, 1.4][i % 3] for i in range(n)])
+        ep = np.array([[0.5, 1.0, 2.0, 1.5][i % 4] for i in range(n)])
+        yy = np.array([[1.48, 2.0, 2.5, 3.0, 1.12][i % 5] for i in range(n)]) if m != "hertz" else np.ones(n)
+    else:
+        sg, ep, yy = np.full(n, 1.4), np.full(n, 1.5), np.full(n, 2.0 if m != "hertz" else 1.0)
+    r = np.array(xs) * sg
+    rc = yy * sg
+    feat = {"model": m, "via": via, "shift": sh, "arrays": case["arrays"], "clause": "arrays", "ndim": len(shape), "size": "<=64" if n <= 64 else ">64"}
+    a_r = r.reshape(shape).copy()
+    if case["arrays"] == "all":
+        a_e, a_s, a_c = ep.reshape(shape).copy(), sg.reshape(shape).copy(), rc.reshape(shape).copy()
+    else:
+        a_e, a_s, a_c = float(ep[0]), float(sg[0]), float(rc[0])
+    try:
+        got = _invoke(m, via, a_r, a_e, a_s, a_c, sh, n=ex.get("n"), A=ex.get("A"), alpha=ex.get("alpha"))
+    except (TypeError, ValueError):
+        R.nontrivial = False  # arrays are not promised by the docstrings
+        R.outcome("unsupported")
+        return R
+    if not (np.array_equal(a_r.reshape(-1), r) and np.array_equal(np.reshape(a_e, -1), ep[: np.size(a_e)]) and np.array_equal(np.reshape(a_s, -1), sg[: np.size(a_s)])
+            and np.array_equal(np.reshape(a_c, -1), rc[: np.size(a_c)])):
+        R.fail("an argument array was modified", sig=dict(feat, clause="input_modified"))
+    if got is None or len(got) != 3:
+        R.fail(f"{m}: returned {type(got).__name__} of length {None if got is None else len(got)}, expected [s1, s1rc, s2]", sig=dict(feat, clause="shape"))
+        return R
+    exp = np.array([pairpot.triple(m, float(r[i]), float(ep[i]), float(sg[i]), float(rc[i]), sh, n=ex.get("n"), A=ex.get("A"), alpha=ex.get("alpha")) for i in range(n)])
+    cols = []
+    for k, name in enumerate(("s1", "s1rc", "s2")):
+        v = np.asarray(got[k])
+        if np.iscomplexobj(v) and np.abs(v.imag).max(initial=0) == 0:
+            v = v.real
+        if v.shape != shape and not (name == "s1rc" and v.ndim == 0):
+            R.fail(f"{m}: {name} has shape {v.shape} for r of shape {shape}", sig=dict(feat, clause="shape", entry=name))
+            return R
+        if v.dtype.kind not in "fiu":
+            R.fail(f"{m}: {name} has dtype {v.dtype}", sig=dict(feat, clause="finite", entry=name))
+            return R
+        v = np.broadcast_to(v.astype(float), shape).reshape(-1)
+        cols.append(v)
+        if name == "s1rc" and not sh:
+            bad = v != 0.0
+        else:
+            bad = ~(np.abs(v - exp[:, k]) <= ATOL + RTOL * np.abs(exp[:, k]))
+        if bad.any():
+            idx = np.nonzero(bad)[0]
+            i = int(idx[0])
+            R.fail(f"{m} ({via}) r array of shape {shape}: {name} wrong at {len(idx)} of {n} elements (first index {i}, last {int(idx[-1])}); at r={r[i]!r}, eps={ep[i]}, "
+                   f"sigma={sg[i]}, r_c={rc[i]!r}, shift={sh}, {ex}: {v[i]!r} but the derivative of the documented potential is {exp[i, k]!r}",
+                   sig=dict(feat, entry=name), exp=exp[i], obs=[c[i] for c in cols])
+            break
+    R.elem = 3 * n
+    R.outcome(np.array(cols))
+    R.nontrivial = True
+    return R
+
+
+def gen_edge(tier, seed):
+    a = alpha(tier)
+    for via in ("direct", "caller"):
+        for sh in (True, False):
+            for n, A in itertools.product(c12x.EDGE_N, [1.0, 2.5]):
+                yield {"model": "ipl", "via": via, "shift": sh, "n": n, "A": A}
+            for al in c12x.EDGE_ALPHA:
+                if al == 1 and sh:
+                    continue  # alpha = 1: docs say s'(r_c) = 0, calculus says -eps/sigma; not demanded either way (ASSUMPTIONS)
+                yield {"model": "hertz", "via": via, "shift": sh, "alpha": al}
+
+
+def run_edge(case):
+    R = Result()
+    m, via, sh = case["model"], case["via"], case["shift"]
+    a = alpha("quick")
+    ex = {"n": case.get("n"), "A": case.get("A"), "alpha": case.get("alpha")}
+    feat = {"model": m, "via": via, "shift": sh, "clause": "edge_exponent", "exponent_type": type(case.get("n", case.get("alpha"))).__name__}
+    rows = []
+    for sg, ep in itertools.product(a["sigma"], a["eps"]):
+        for form in ("pyfloat", "np.float64"):
+            mk = _mk(form)
+            xs = a["x"] if m == "ipl" else a["xh"]
+            ys = a["y"] if m == "ipl" else [1.0]
+            for x, y in itertools.product(xs[::2], ys):
+                r, rc = x * sg, y * sg
+                got = _invoke(m, via, mk(r), mk(ep), mk(sg), mk(rc), sh, **{k: v for k, v in ex.items() if v is not None})
+                if m == "hertz":
+                    # r_c = sigma: s'(r_c) = 0 for alpha > 1 (documented); not differentiated there (s'' diverges for alpha < 2)
+                    exp = pairpot.triple(m, r, ep, sg, rc, False, **ex)
+                else:
+                    exp = pairpot.triple(m, r, ep, sg, rc, sh, **ex)
+                if got is None or len(got) != 3 or any(isinstance(v, complex) for v in got):
+                    R.fail(f"{m} {ex} at r={r}: returned {got!r}", sig=dict(feat, clause="shape"))
+                    return R
+                g = [float(v) for v in got]
+                rows.append(g)
+                bad = [k for k in range(3) if not (abs(g[k] - exp[k]) <= ATOL + RTOL * abs(exp[k])) or (k == 1 and not sh and g[k] != 0.0)]
+                if bad:
+                    R.fail(f"{m} ({via}, {form}) exponent {ex}: at r={r}, eps={ep}, sigma={sg}, r_c={rc}, shift={sh} returned {g}, derivatives of the documented potential "
+                           f"are {exp} (entries {bad} wrong)", sig=dict(feat, entry=["s1", "s1rc", "s2"][bad[0]]), exp=exp, obs=g)
+                    return R
+    R.elem = 3 * len(rows)
+    R.outcome(rows)
+    R.nontrivial = any(abs(g[0]) > 0 for g in rows) or case.get("n") in (0, 0.0)
+    return R
+
+
+def gen_mixed(tier, seed):
+    q = tier == "quick"
+    nl = len(c12x.MIX_LETTERS)
+    for via in ("caller", "direct"):
+        for L in (1, 2, 3):
+            if q and L == 3 and via == "direct":
+                continue
+            for word in itertools.product(range(nl), repeat=L):
+                yield {"mode": "fresh", "via": via, "word": list(word)}
+    if not q:
+        for word in itertools.product(range(6), repeat=4):
+            yield {"mode": "fresh", "via": "caller", "word": list(word)}
+    so = c12x.SAME_OBJECT
+    for L in (1, 2) if q else (1, 2, 3):
+        for word in itertools.product(range(2 * len(so)), repeat=L):
+            yield {"mode": "same_object", "via": "per_letter", "word": list(word)}
+
+
+def _mixed_letter(case, k):
+    """-> (parameter point, via) of letter k of this word"""
+    if case["mode"] == "same_object":
+        so = c12x.SAME_OBJECT
+        return c12x.mix_point(so[k % len(so)]), ("direct" if k < len(so) else "caller")
+    return c12x.mix_point(k), case["via"]
+
+
+def _mixed_child(case):
+    from PyMatterSim.static.hessians import PairInteractions
+
+    obj = None
+    if case["mode"] == "same_object":
+        p0 = c12x.mix_point(c12x.SAME_OBJECT[0])
+        obj = PairInteractions(p0["x"] * p0["sigma"], p0["eps"], p0["sigma"], p0["y"] * p0["sigma"], p0["shift"])
+    out = []
+    for k in case["word"]:
+        p, via = _mixed_letter(case, k)
+        # the fields of the other models carry the values of the base letters (n=10, A=1, alpha=3), so that the InteractionParams of
+        # the lj / ipl(10,1) / hertz(3) letters differ in model_name ONLY
+        got = _invoke(p["model"], via, p["x"] * p["sigma"], p["eps"], p["sigma"], p["y"] * p["sigma"], p["shift"], n=p["n"], A=p["A"], alpha=p["alpha"], obj=obj,
+                      decoy={"ipl_n": 10, "ipl_A": 1.0, "harmonic_hertz_alpha": 3})
+        out.append([complex(v).real if complex(v).imag == 0 else None for v in got])
+    return out
+
+
+def run_mixed(case):
+    R = Result()
+    payload = c12x.forked(_mixed_child, case)
+    feat = {"clause": "sequence_mixed", "mode": case["mode"], "via": case["via"]}
+    if "err" in payload:
+        R.fail(f"call sequence {case['word']} raised {payload['err']}", sig=dict(feat, exception=True))
+        return R
+    states = set()
+    prev = None
+    for pos, (k, got) in enumerate(zip(case["word"], payload["ok"])):
+        p, via = _mixed_letter(case, k)
+        exp = pairpot.triple(p["model"], p["x"] * p["sigma"], p["eps"], p["sigma"], p["y"] * p["sigma"], p["shift"], n=p["n"], A=p["A"], alpha=p["alpha"])
+        states.add((k, tuple(got)))
+        bad = [i for i in range(3) if got[i] is None or not (abs(got[i] - exp[i]) <= ATOL + RTOL * abs(exp[i]))]
+        if bad:
+            changed = sorted(f for f in ("model", "n", "A", "alpha", "x", "eps", "y", "shift") if prev is not None and prev[f] != p[f])
+            R.fail(f"{case['mode']}: call #{pos + 1} ({p['model']} via {via}) of the sequence {[_mixed_letter(case, i)[0] for i in case['word']]} returned {got}, "
+                   f"derivatives of the documented potential are {exp} (entries {bad} wrong)",
+                   sig=dict(feat, model=p["model"], position="first" if pos == 0 else "later", changed=changed), exp=exp, obs=got)
+            break
+        prev = p
+    R.elem = 3 * len(case["word"])
+    R.states = len(states)
+    R.transitions = len(case["word"])
+    R.outcome(payload["ok"])
+    return R
+
+
 # ------------------------------------------------------------------------------------------ wiring
 def claim(model, tier):
     """text + dict describing which identity the completed grid decides for this model"""
@@ -317,4 +603,27 @@ def subs(tier, seed):
                   "(a result memoised under an incomplete key, or any other state carried between calls, shows up in the second call)",
              bounds={"depth": 2 if tier == "quick" else 3, "points": {m: len(seq_points(m)) for m in pairpot.MODELS}})
     out.append(sq)
+    q = tier == "quick"
+    out.append(Sub("C12.types", gen_types, run_types,
+                   rule="ARGUMENT TYPES: every argument (r, epsilon, sigma, r_c, n, A, alpha) given as " + ", ".join(c12x.NUM_FORMS) + " x model x direct / caller x "
+                        "shift; full product of integer values r in {2,3,7}, sigma in {1,2,3} (Hertz {3,8}), r_c in {4,8}, epsilon in {1,2}, n in {4,6,12}, A in {1,3}, "
+                        "alpha in {2,3} (so that integer division / integer powers / int32 overflow of r^(n+2) = 7^14 would show); hyper-dual reference",
+                   bounds={"forms": c12x.NUM_FORMS, "r": c12x.INT_R, "sigma": c12x.INT_SIGMA, "r_c": c12x.INT_RC, "n": c12x.INT_N}))
+    out.append(Sub("C12.scale", gen_scale, run_scale,
+                   rule="SIZES: r as a numpy array of shape " + str(c12x.SHAPES_Q if q else c12x.SHAPES_T) + " (one fixed Weyl pattern of r/sigma per size), alone or with "
+                        "equally shaped epsilon / sigma / r_c arrays, x model (IPL (10, 2.5), (12.5, 1); Hertz 2.5, 3) x direct / caller x shift; s1, s2 must have the shape "
+                        "of r (s1rc scalar or that shape) and equal the hyper-dual derivatives element by element; TypeError/ValueError = arrays unsupported (trivial case)",
+                   bounds={"shapes": c12x.SHAPES_Q if q else c12x.SHAPES_T}))
+    out.append(Sub("C12.edge", gen_edge, run_edge,
+                   rule="EDGE EXPONENTS: n in " + str(c12x.EDGE_N) + " x A in {1, 2.5}, alpha in " + str(c12x.EDGE_ALPHA) + " (int- and float-typed; powers 0 and < 0 inside the "
+                        "closed forms) x shift x direct / caller x sigma x epsilon x every second r node (Hertz: r < sigma) x r_c, python float and np.float64 arguments; "
+                        "BOUNDED claim in the exponents; non-trivial = some s1 != 0 (n = 0: s is constant)",
+                   bounds={"n": c12x.EDGE_N, "alpha": c12x.EDGE_ALPHA}))
+    out.append(Sub("C12.sequence.mixed", gen_mixed, run_mixed,
+                   rule="explicit-state search over CALL SEQUENCES ACROSS MODELS: all words of length <= 3" + ("" if q else " (and length 4 over the first 6 letters)")
+                        + " over %d calls that share (r, epsilon, sigma, r_c, shift) but differ in model / n / A / alpha (plus single departures in epsilon, r, shift), a fresh "
+                          "PairInteractions object per call, via caller (quick: direct methods up to length 2); and all words of length <= %d over 12 method calls on ONE "
+                          "object (6 model/exponent variants x direct / caller); each word in a forked child; every call must return the derivatives for ITS OWN model "
+                          "and parameters" % (len(c12x.MIX_LETTERS), 2 if q else 3),
+                   bounds={"letters": len(c12x.MIX_LETTERS), "same_object_letters": 2 * len(c12x.SAME_OBJECT)}))
     return out
